@@ -293,6 +293,7 @@ def run(tier, replay=None):
     run_.add_tlc(b)
     stale = [{"id": "stale-%s-%s-%s" % (how, end, park.split(".")[-1]), "how": how, "end": end, "park": park}
              for how in ("notif", "broadcast", "filtered") for end in ("close", "newer") for park in ("sse.write.id", "sse.write.data")]
+    stale += [{"id": "fastanswer-%d" % k, "how": "fastanswer", "end": "-", "park": "-"} for k in range(2)]
     sout = common.run_harness_json(["c05stale"], {"items": stale}, timeout=300, crash_ok=True)
     if "_crash" in sout:
         run_.diverge("stale-send process-crash", "the server process crashed: %s" % sout["_crash"][:1200], {"cmd": ["c05stale"], "input": {"items": stale}})
@@ -307,6 +308,14 @@ def run(tier, replay=None):
                 unreal += 1
                 continue
             rp = {"cmd": ["c05stale"], "input": {"items": [it]}, "observed": r, "spec": "StaleSend / TraceStaleSend"}
+            if it["how"] == "fastanswer":
+                # Push: ClientAnswer by the addressed session is accepted whenever the request is pending - also when it comes at once
+                run_.nontriv(["fastanswer", it["id"]])
+                if r["b_hung"] or not r["b_ok"]:
+                    run_.diverge("server-request answered-at-once not-accepted",
+                                 "the addressed session posted its answer to a server-issued roots/list while the issuing goroutine was still inside the Flush that "
+                                 "delivered the frame (POST status %s); the request ended with %s" % (r.get("notice_ms"), "a hang" if r["b_hung"] else repr(r.get("b_err"))), rp)
+                continue
             if r["b_hung"]:
                 run_.diverge("stale-send how=%s send-hangs" % it["how"], "the send queued behind the write did not return within 3 s", rp)
                 continue
@@ -330,6 +339,24 @@ def run(tier, replay=None):
                          "(%s): it reported %s (count %d, err %r), its frame was %s; TLC rejects the log at event %d %s"
                          % (it["end"], "the session as reached" if r["b_ok"] else "a failure", r["b_count"], r.get("b_err", ""),
                             "read by the peer" if (r["b_on_old"] or r["b_on_new"]) else "read by nobody", pos, json.dumps(line)), rp)
+    # ---- the library client's end of the stream: every notification sent to its session reaches the handler exactly once, also when
+    # event ids of the listening stream coincide with ids seen on POST response streams (ids are unique per stream only)
+    cruns = [{"id": "client-frozen-ids", "rounds": 6, "freeze": True}, {"id": "client-plain", "rounds": 4, "freeze": False}]
+    cout = common.run_harness_json(["c05client"], {"runs": cruns}, timeout=300, crash_ok=True)
+    if "_crash" in cout:
+        run_.diverge("library-client process-crash", cout["_crash"][:1200], {"cmd": ["c05client"], "input": {"runs": cruns}})
+    else:
+        for cr, r in zip(cruns, cout["results"]):
+            if r.get("broken"):
+                raise common.Broken("library client run %s: %s" % (r["id"], r["broken"]))
+            run_.evaluations += 1
+            run_.nontriv(["library-client", cr["id"]])
+            rp = {"cmd": ["c05client"], "input": {"runs": [cr]}, "observed": r, "spec": "Push (delivered once)"}
+            wrong = {d: r["counts"].get(d, 0) for d in r["sent"] if r["counts"].get(d, 0) != 1}
+            extra = [d for d in r["counts"] if d not in r["sent"]]
+            if wrong or extra:
+                run_.diverge("library-client delivered-count", "notifications sent to the session of a library client with an open listening stream (%s): handler calls per "
+                             "notification %s (must be 1 each), unexpected %s" % ("event ids frozen to evt-0-n" if cr["freeze"] else "plain", wrong, extra), rp)
     run_.rule = ("walks = edge cover of the Push state graph (sessions x stream open/closed x sends x server-request steps incl. "
                  "answers from the wrong session) on a Streamable-HTTP and a legacy SSE server (+ random walks, thorough); "
                  "non-trivial = walks with at least one delivered send or a completed / cancelled server request")
